@@ -54,8 +54,20 @@ def generate(seed, tier):
             ops.append(m)
         else:
             ops.append({'op': 'clock', 'dt': rng.choice([100, 1000, 5000, 31_000, 120_000])})
-    return {'config': {'base': 'hreal', 'hard': rng.random() < 0.5, 'build': build, 'miners': miners, 'bots': rng.randint(1, 3),
-                       'wallet_keys': rng.randint(2, 6)}, 'ops': ops}
+    cfg = {'base': 'hreal', 'hard': rng.random() < 0.5, 'build': build, 'miners': miners, 'bots': rng.randint(1, 3),
+           'wallet_keys': rng.randint(2, 6)}
+    if rng.random() < 0.3:
+        # the served head sits just below a retarget boundary: the miner assembles the boundary block
+        k = rng.randrange(5)
+        span = 1_209_600
+        cfg.update({'base': 'hboundary', 'k': k, 'elapsed': rng.choice([span, span // 2 + 1, span // 4, span * 2, span - 1]),
+                    'hard': False})
+        cfg['build'] = []
+        for i in range(2 + k % 5 - 1 - rng.choice([0, 0, 1])):
+            m = LC.gen_mine(rng, latest_bias=1.0, max_txs=1)
+            m.update({'tip': -1, 'clock': 0, 'via': 'memory', 'dt': rng.choice([1, 60, 600])})
+            cfg['build'].append(m)
+    return {'config': cfg, 'ops': ops}
 
 
 def execute(script):
@@ -147,7 +159,13 @@ def execute(script):
                     served_cs, pool = w.cm.get_state()
                     pool_ids = [rules.tx_id(t) for t in pool]
                     key_before = watcher.public_key
-                    watcher.handle_received_message(item)
+                    try:
+                        watcher.handle_received_message(item)
+                    except Exception as e:
+                        res.violate(PROP, 'C12/candidate-assembly-raised',
+                                    'assembling a candidate from the served head and the pending pool raised %s: %s' % (type(e).__name__, e))
+                        stop['now'] = True
+                        return
                     summary, height, txs = watcher.mining_args[miner_id]
                     assembled[miner_id] = {'served_head': served_cs.current_chain_hash, 'key': key_before, 'pool_ids': pool_ids,
                                            'clock': int(node.clock_s()), 'served_cs': served_cs}
